@@ -551,3 +551,53 @@ REG.lemma(
          "hash equally': with nhash(.,0) = 0 on both sides, induction on i (the induction principle itself is the one "
          "unchecked step) gives equal results of __hash__ by its contract",
 )
+
+
+# ----------------------------------------------------------------------------- decoding an uncompressed name is the inverse of encoding
+_PINV = ("0 <= parser.current and parser.current <= parser.end and parser.end <= len(parser.wire) "
+         "and 0 <= parser.furthest and parser.furthest <= len(parser.wire)")
+_START = "old_parser.current"
+REG.contract(
+    "dns.name.from_wire_parser#uncompressed",
+    target="dns.name.from_wire_parser", verify_only=True,
+    # Name.__init__ is executed (not summarised) so that the result's labels are the collected list itself
+    inline_calls=["dns.name.Name.__init__"],
+    params={"parser": T.obj("dns.wirebase.Parser")},
+    # sequential parsing: nothing beyond the current position has been read yet
+    requires=[_PINV, "parser.furthest <= parser.current"],
+    raises=[("dns.exception.FormError", "True", "may")],
+    returns=NAME,
+    loops={
+        0: loop(
+            invariant=[
+                _PINV,
+                "parser.wire == old_parser.wire and parser.end == old_parser.end",
+                f"0 <= biggest_pointer and biggest_pointer <= {_START}",
+                "0 <= count and count <= 255",
+                "all(1 <= len(labels[k]) and len(labels[k]) <= 63 for k in range(len(labels)))",
+                # while no pointer has been followed: what was consumed (up to the length octet just read) is the
+                # encoding of the labels collected so far
+                f"(biggest_pointer != {_START}) or ({_START} <= parser.current - 1 "
+                f"and parser.wire[{_START}:parser.current - 1] == wenc(labels, len(labels), False) "
+                "and count == parser.wire[parser.current - 1])",
+                # once a pointer has been followed, its first octet lies in the region that counts as consumed
+                f"(biggest_pointer == {_START}) or any(parser.wire[p] >= 192 for p in range({_START}, parser.furthest))",
+                f"(biggest_pointer != {_START}) or parser.furthest == parser.current",
+            ],
+            decreases=["biggest_pointer", "parser.end - parser.current"],
+            types={"labels": T.list_of(T.bytes)},
+            modifies={"parser.current": T.int, "parser.furthest": T.int},
+        )
+    },
+    site_requires={"dns.wirebase.Parser.seek": ["current < head_biggest_pointer", f"head_biggest_pointer <= {_START}"]},
+    ensures=[
+        "parser.current == parser.furthest",
+        # a name written without compression pointers: re-encoding the result gives back exactly the octets consumed
+        f"(not all(parser.wire[p] < 192 for p in range({_START}, parser.current))) "
+        f"or parser.wire[{_START}:parser.current] == wenc(result.labels, len(result.labels), False)",
+    ],
+    props=["C01", "C02", "C03"],
+    note="decode then encode is the identity on an uncompressed name: unless a compression pointer (an octet >= 192 in the "
+         "consumed region) was followed, the octets consumed are exactly the RFC 1035 encoding of the resulting labels "
+         "(with Name.to_wire == wenc, this is one half of 'the wire codecs are exact inverses')",
+)
